@@ -25,7 +25,7 @@ use crate::util::*;
 use baa::{BitVecOps, Value};
 use patronus::expr::*;
 use patronus::mc::{InitValue, ModelCheckResult, bmc, pdr};
-use patronus::smt::{CVC5, Error, Solver, Z3};
+use patronus::smt::{CVC5, CheckSatResponse, Error, Logic, Solver, SolverContext, SolverMetaData, Z3};
 use patronus::system::*;
 use std::collections::BTreeMap;
 use std::io::{Read, Write};
@@ -98,7 +98,112 @@ fn say(line: &str) {
     let _ = o.flush();
 }
 
-/// `verif-harness C15 --worker 1 --sys-file F --engine bmc|pdr --kmax K --ind 0|1 --cc 0|1 --solver z3|cvc5`
+/// A `SolverContext` that passes everything on to the real context and, at the n-th RESPONSE-BEARING call
+/// (check_sat, check_sat_assuming, get_value, get_unsat_assumptions; same global numbering as the shim's response
+/// points, continuing over restart()), replaces the result:
+///   `unknown`: a check answers `Ok(CheckSatResponse::Unknown)` - what a context that reports `unknown` as a value
+///              (the trait allows it, pdr.rs has explicit arms for it) would return;
+///   `error`:   the call returns `Err(FromSolver(name, CTX_ERROR_TEXT))`.
+/// The real call is made first, so the solver process stays in step with the conversation.
+/// This is the observation level "Result returned by bmc/pdr when a SolverContext method misbehaves": the real
+/// SmtLibSolverCtx turns the TEXT `unknown` into an error before bmc/pdr see it, so no byte-level fault reaches
+/// the code that handles `Ok(Unknown)`.
+pub const CTX_ERROR_TEXT: &str = "injected: solver context error";
+
+struct FaultyCtx<S: SolverContext> {
+    inner: S,
+    calls: u64,
+    at: Option<u64>,
+    fault: String,
+}
+
+impl<S: SolverContext> FaultyCtx<S> {
+    fn hit(&mut self) -> bool {
+        let n = self.calls;
+        self.calls += 1;
+        self.at == Some(n)
+    }
+    fn err(&self) -> Error {
+        Error::FromSolver(self.inner.name().to_string(), CTX_ERROR_TEXT.to_string())
+    }
+}
+
+impl<S: SolverContext> SolverMetaData for FaultyCtx<S> {
+    fn name(&self) -> &str {
+        self.inner.name()
+    }
+    fn supports_check_assuming(&self) -> bool {
+        self.inner.supports_check_assuming()
+    }
+    fn supports_uf(&self) -> bool {
+        self.inner.supports_uf()
+    }
+    fn supports_const_array(&self) -> bool {
+        self.inner.supports_const_array()
+    }
+    fn supports_get_unsat_assumptions(&self) -> bool {
+        self.inner.supports_get_unsat_assumptions()
+    }
+}
+
+impl<S: SolverContext> SolverContext for FaultyCtx<S> {
+    fn restart(&mut self) -> patronus::smt::Result<()> {
+        self.inner.restart()
+    }
+    fn set_logic(&mut self, option: Logic) -> patronus::smt::Result<()> {
+        self.inner.set_logic(option)
+    }
+    fn assert(&mut self, ctx: &Context, e: ExprRef) -> patronus::smt::Result<()> {
+        self.inner.assert(ctx, e)
+    }
+    fn declare_const(&mut self, ctx: &Context, symbol: ExprRef) -> patronus::smt::Result<()> {
+        self.inner.declare_const(ctx, symbol)
+    }
+    fn define_const(&mut self, ctx: &Context, symbol: ExprRef, expr: ExprRef) -> patronus::smt::Result<()> {
+        self.inner.define_const(ctx, symbol, expr)
+    }
+    fn check_sat_assuming(&mut self, ctx: &Context, props: impl IntoIterator<Item = ExprRef>) -> patronus::smt::Result<CheckSatResponse> {
+        let hit = self.hit();
+        let r = self.inner.check_sat_assuming(ctx, props);
+        if !hit {
+            return r;
+        }
+        match self.fault.as_str() {
+            "unknown" => r.map(|_| CheckSatResponse::Unknown),
+            _ => Err(self.err()),
+        }
+    }
+    fn check_sat(&mut self) -> patronus::smt::Result<CheckSatResponse> {
+        let hit = self.hit();
+        let r = self.inner.check_sat();
+        if !hit {
+            return r;
+        }
+        match self.fault.as_str() {
+            "unknown" => r.map(|_| CheckSatResponse::Unknown),
+            _ => Err(self.err()),
+        }
+    }
+    fn push(&mut self) -> patronus::smt::Result<()> {
+        self.inner.push()
+    }
+    fn pop(&mut self) -> patronus::smt::Result<()> {
+        self.inner.pop()
+    }
+    fn get_value(&mut self, ctx: &mut Context, e: ExprRef) -> patronus::smt::Result<ExprRef> {
+        let hit = self.hit();
+        let r = self.inner.get_value(ctx, e);
+        if hit && self.fault != "unknown" { Err(self.err()) } else { r }
+    }
+    fn get_unsat_assumptions(&mut self, ctx: &mut Context) -> patronus::smt::Result<Vec<ExprRef>> {
+        let hit = self.hit();
+        let r = self.inner.get_unsat_assumptions(ctx);
+        if hit && self.fault != "unknown" { Err(self.err()) } else { r }
+    }
+}
+
+/// `verif-harness C15 --worker 1 --sys-file F --engine bmc|pdr|pdrnc --kmax K --ind 0|1 --cc 0|1 --solver z3|cvc5
+///                [--ctx-at N --ctx-fault unknown|error]`      (pdrnc = pdr with unsat-core generalisation disabled)
 fn worker(args: &Args) {
     let cases = read_cases(args.get("sys-file").expect("--sys-file"));
     let mut ctx = Context::default();
@@ -108,12 +213,20 @@ fn worker(args: &Args) {
     let ind = args.get_u64("ind", 0) != 0;
     let cc = args.get_u64("cc", 0) != 0;
     let solver = if args.get("solver") == Some("cvc5") { CVC5 } else { Z3 };
+    let ctx_at = args.get("ctx-at").map(|v| v.parse::<u64>().expect("ctx-at"));
+    let ctx_fault = args.get("ctx-fault").unwrap_or("").to_string();
     let r = guarded(|| {
-        let mut smt = match solver.start(None) {
+        let inner = match solver.start(None) {
             Ok(s) => s,
             Err(e) => return format!("(start-failed {})", quote(&format!("{e}"))),
         };
-        let r = if engine == "pdr" { pdr(&mut ctx, &mut smt, &sys, false) } else { bmc(&mut ctx, &mut smt, &sys, cc, ind, kmax) };
+        // always through the wrapper (transparent when no --ctx-at is given)
+        let mut smt = FaultyCtx { inner, calls: 0, at: ctx_at, fault: ctx_fault.clone() };
+        let r = match engine.as_str() {
+            "pdr" => pdr(&mut ctx, &mut smt, &sys, false),
+            "pdrnc" => pdr(&mut ctx, &mut smt, &sys, true),
+            _ => bmc(&mut ctx, &mut smt, &sys, cc, ind, kmax),
+        };
         let s = outcome_str(&r);
         say(&format!("(pre {s})"));
         drop(smt); // Drop talks to the solver once more: part of the session
@@ -273,6 +386,9 @@ struct Job {
     cc: bool,
     at: Option<u64>,
     fault: String,
+    /// context-level fault (FaultyCtx in the worker): response-bearing call index and kind
+    ctx_at: Option<u64>,
+    ctx_fault: String,
     tag: String,
     /// log of the fault-free run whose replies may be reused (None = always a live solver)
     replay: Option<String>,
@@ -307,6 +423,9 @@ fn run_job_once(st: &Setup, j: &Job) -> Outcome {
     cmd.env_remove("SHIM_REPLAY");
     if let Some(at) = j.at {
         cmd.env("SHIM_AT", at.to_string()).env("SHIM_FAULT", &j.fault);
+    }
+    if let Some(at) = j.ctx_at {
+        cmd.args(["--ctx-at", &at.to_string(), "--ctx-fault", &j.ctx_fault]);
     }
     if let Some(r) = &j.replay {
         cmd.env("SHIM_REPLAY", r);
@@ -495,9 +614,35 @@ fn builtin(k: u64) -> Option<SysCase> {
             sys.constraints.push(c);
             Some(describe(&ctx, &sys, "safe-two-bads-individually-cc", 2, true, true))
         }
+        2 => {
+            // 1-bit state (init 0) that copies the input `trigger`; bad when the state is 1: fails at step 1
+            // (the unsafe system of the seeded-change demo C15-m3)
+            let st = ctx.bv_symbol("st", 1);
+            let trigger = ctx.bv_symbol("trigger", 1);
+            sys.add_input(&ctx, trigger);
+            let zero = ctx.bit_vec_val(0, 1);
+            sys.add_state(&ctx, State { symbol: st, init: Some(zero), next: Some(trigger) });
+            sys.bad_states.push(st);
+            Some(describe(&ctx, &sys, "trigger-bad", 2, false, false))
+        }
+        3 => {
+            // 2-bit free-running counter, bad exactly when it is 3: reachable at step 3 and at no other step <= k_max.
+            // (A client that takes an `unknown` answer at step 3 for "not sat" ends with Success.)
+            let c = ctx.bv_symbol("n", 2);
+            let one = ctx.bit_vec_val(1, 2);
+            let inc = ctx.add(c, one);
+            let zero = ctx.bit_vec_val(0, 2);
+            sys.add_state(&ctx, State { symbol: c, init: Some(zero), next: Some(inc) });
+            let three = ctx.bit_vec_val(3, 2);
+            let bad = ctx.equal(c, three);
+            sys.bad_states.push(bad);
+            Some(describe(&ctx, &sys, "counter-bad-exactly-at-3", 3, false, false))
+        }
         _ => None,
     }
 }
+
+const N_BUILTIN: usize = 4;
 
 fn gen_system(rng: &mut Rng, idx: u64) -> SysCase {
     let mut ctx = Context::default();
@@ -662,8 +807,9 @@ fn parent(args: &Args) {
         max_ms: args.get_u64("max-ms", 120000),
     };
     let jobs_n = args.get_u64("jobs", 8) as usize;
-    let engines: Vec<String> = args.get("engines").unwrap_or("bmc,pdr").split(',').map(|s| s.to_string()).collect();
+    let engines: Vec<String> = args.get("engines").unwrap_or("bmc,pdr,pdrnc").split(',').map(|s| s.to_string()).collect();
     let pdr_cap = args.get_u64("pdr-cap", 24) as usize;
+    let full_limit = args.get_u64("full-limit", 40) as usize;
     let only_fault = args.get("fault").map(|s| s.to_string());
     let (faults, faults2) = match &only_fault {
         Some(f) => (vec![f.clone()], vec![]),
@@ -699,13 +845,16 @@ fn parent(args: &Args) {
             let engine = f("engine");
             let point: i64 = f("point").parse().unwrap_or(-1);
             let fault = f("fault");
-            let base_job = Job { sys_file: sys_file.clone(), engine: engine.clone(), kmax: sc.kmax, ind: sc.ind, cc: sc.cc, at: None, fault: String::new(), tag: format!("replay{n}n"), replay: None, keep_log: true };
+            let base_job = Job { sys_file: sys_file.clone(), engine: engine.clone(), kmax: sc.kmax, ind: sc.ind, cc: sc.cc, at: None, fault: String::new(), ctx_at: None, ctx_fault: String::new(), tag: format!("replay{n}n"), replay: None, keep_log: true };
             let nominal = run_job(&st, &base_job);
             let id = c.list()[1].atom().to_string();
             let line = if point < 0 {
                 case_line(&id, &sc, &st, &engine, -1, nominal.log.points.len(), "none", "none", b"", &nominal, &nominal)
             } else {
-                let j = Job { at: Some(point as u64), fault: fault.clone(), tag: format!("replay{n}f"), replay: None, keep_log: false, ..base_job.clone() };
+                let j = match fault.strip_prefix("ctx-") {
+                    Some(k) => Job { at: None, fault: fault.clone(), ctx_at: Some(point as u64), ctx_fault: k.to_string(), tag: format!("replay{n}f"), replay: None, keep_log: false, ..base_job.clone() },
+                    None => Job { at: Some(point as u64), fault: fault.clone(), tag: format!("replay{n}f"), replay: None, keep_log: false, ..base_job.clone() },
+                };
                 let o = run_job(&st, &j);
                 let (kind, reply) = nominal.log.points.get(point as usize).map(|p| (p.1.clone(), p.2.clone())).unwrap_or_default();
                 case_line(&id, &sc, &st, &engine, point, nominal.log.points.len(), &kind, &fault, &reply, &nominal, &o)
@@ -721,7 +870,7 @@ fn parent(args: &Args) {
     let mut systems: Vec<SysCase> = vec![];
     let n_sys = args.count as usize;
     let mut b = 0;
-    while systems.len() < n_sys.min(2) {
+    while systems.len() < n_sys.min(N_BUILTIN) {
         match builtin(b) {
             Some(s) => systems.push(s),
             None => break,
@@ -744,22 +893,27 @@ fn parent(args: &Args) {
         sys_files.push(sys_file.clone());
         stats.bump("system", &format!("states={} inputs={} bads={} array={} kmax={} ind={} cc={}", sc.n_states, sc.n_inputs, sc.n_bads, sc.has_array, sc.kmax, sc.ind as u8, sc.cc as u8));
         for engine in engines.iter() {
-            if engine == "pdr" && sc.has_array {
+            let is_pdr = engine.starts_with("pdr");
+            let is_builtin = si < N_BUILTIN.min(n_sys);
+            if is_pdr && sc.has_array {
                 stats.bump("pdr-skipped", "array state (todo! in pdr.rs)");
                 continue;
             }
-            let base_job = Job { sys_file: sys_file.clone(), engine: engine.clone(), kmax: sc.kmax, ind: sc.ind, cc: sc.cc, at: None, fault: String::new(), tag: format!("s{si}.{engine}.nominal"), replay: None, keep_log: true };
+            if engine == "pdrnc" && !is_builtin {
+                continue; // the second generalisation mode only on the hand-written systems
+            }
+            let base_job = Job { sys_file: sys_file.clone(), engine: engine.clone(), kmax: sc.kmax, ind: sc.ind, cc: sc.cc, at: None, fault: String::new(), ctx_at: None, ctx_fault: String::new(), tag: format!("s{si}.{engine}.nominal"), replay: None, keep_log: true };
             let nominal = run_job(&st, &base_job);
             stats.bump(&format!("nominal-{engine}"), &class_of(&nominal.fin));
             let pts = nominal.log.points.clone();
             stats.bump(&format!("points-per-run-{engine}"), &bucket(pts.len()));
-            if engine == "pdr" && (class_of(&nominal.fin) == "hang" || class_of(&nominal.fin) == "panic") {
+            if is_pdr && (class_of(&nominal.fin) == "hang" || class_of(&nominal.fin) == "panic") {
                 // PDR itself does not finish on this system: nothing to enumerate, still reported as a case
                 stats.bump("pdr-skipped", "nominal run does not finish");
             }
-            // which points to corrupt
+            // which points get the whole primary list
             let mut chosen: Vec<usize> = (0..pts.len()).collect();
-            if engine == "pdr" && pts.len() > pdr_cap {
+            if is_pdr && pts.len() > pdr_cap {
                 // the first and last points, every get-unsat-assumptions/get-value kind represented, the rest sampled
                 let mut keep = std::collections::BTreeSet::new();
                 keep.insert(0);
@@ -779,19 +933,68 @@ fn parent(args: &Args) {
                     keep.insert(rng.below(pts.len() as u64) as usize);
                 }
                 chosen = keep.into_iter().collect();
-                stats.add("pdr-points-sampled-out", (pts.len() - chosen.len()) as u64);
+                stats.add("pdr-points-sampled-out-for-the-other-kinds", (pts.len() - chosen.len()) as u64);
             }
+            if engine == "pdrnc" {
+                chosen.clear(); // second mode: only the kinds that go to every point
+            }
+            // The kinds that go to EVERY response point of the conversation, whatever its length (PDR: the hand-written
+            // systems always, generated ones up to `full_limit` points): byte-level unknown / error / garbage, and the
+            // context-level faults (a check answers Ok(Unknown); a call returns Err).
+            let everywhere: Vec<String> = if only_fault.is_some() {
+                vec![]
+            } else if engine == "pdr" && (si < 3 || tier == "thorough") {
+                vec!["unknown".into(), "error:20".into(), "garbage:0".into(), "ctx-unknown".into(), "ctx-error".into()]
+            } else if is_pdr {
+                vec!["unknown".into(), "ctx-unknown".into(), "ctx-error".into()]
+            } else {
+                vec!["ctx-unknown".into(), "ctx-error".into()]
+            };
+            let full = !is_pdr || (is_builtin && engine == "pdr") || pts.len() <= full_limit;
             let mut jobs = vec![];
-            let secondary_everywhere = (if engine == "pdr" { &sec_pdr } else { &sec_bmc }) == "all";
+            let secondary_everywhere = (if is_pdr { &sec_pdr } else { &sec_bmc }) == "all";
             if class_of(&nominal.fin) != "hang" {
                 let nominal_log = format!("{}/s{si}.{engine}.nominal.log", st.tmp);
+                let mut done: std::collections::HashSet<(usize, String)> = std::collections::HashSet::new();
                 let mut push = |p: usize, f: &String| {
+                    if !done.insert((p, f.clone())) {
+                        return;
+                    }
+                    let is_check = pts[p].1.starts_with("check-sat");
+                    if f == "ctx-unknown" && !is_check {
+                        return; // only a check can answer `unknown`
+                    }
                     // unique per (point, fault): two fault names may sanitize to the same text
                     let tag = format!("s{si}.{engine}.p{p}.{}.{:x}", sanitize(f), f.bytes().fold(0u32, |h, b| h.wrapping_mul(31).wrapping_add(b as u32)) & 0xffff);
                     // every `live_every`-th job talks to a live solver all the way, the others reuse the recorded replies
                     let live = live_every > 0 && (jobs.len() as u64) % live_every == 0;
-                    jobs.push((Job { at: Some(pts[p].0), fault: f.clone(), tag, replay: if live { None } else { Some(nominal_log.clone()) }, keep_log: false, ..base_job.clone() }, pts[p].0, pts[p].1.clone(), pts[p].2.clone()));
+                    let replay = if live { None } else { Some(nominal_log.clone()) };
+                    let job = match f.strip_prefix("ctx-") {
+                        Some(k) => Job { at: None, fault: f.clone(), ctx_at: Some(pts[p].0), ctx_fault: k.to_string(), tag, replay, keep_log: false, ..base_job.clone() },
+                        None => Job { at: Some(pts[p].0), fault: f.clone(), tag, replay, keep_log: false, ..base_job.clone() },
+                    };
+                    jobs.push((job, pts[p].0, pts[p].1.clone(), pts[p].2.clone()));
                 };
+                if full {
+                    for p in 0..pts.len() {
+                        for f in everywhere.iter() {
+                            push(p, f);
+                        }
+                    }
+                    if is_pdr {
+                        let checks = pts.iter().filter(|x| x.1.starts_with("check-sat")).count();
+                        stats.add("pdr-points-fully-enumerated", pts.len() as u64);
+                        stats.add("pdr-check-points-answered-unknown-by-the-context", checks as u64);
+                        stats.bump("pdr-full-enumeration", &format!("s{si} {} {engine} nominal={}: all {} points ({} checks) x {}", sc.name, class_of(&nominal.fin), pts.len(), checks, everywhere.join(",")));
+                    }
+                } else if is_pdr {
+                    stats.add("pdr-points-not-fully-enumerated", pts.len() as u64);
+                    for &p in chosen.iter() {
+                        for f in everywhere.iter() {
+                            push(p, f);
+                        }
+                    }
+                }
                 for &p in chosen.iter() {
                     for f in faults.iter() {
                         push(p, f);
@@ -863,6 +1066,9 @@ fn parent(args: &Args) {
             let line = case_line(&id, sc, &st, &p.engine, *point as i64, npoints, kind, &job.fault, reply, &p.nominal, o);
             let fk = job.fault.split(':').next().unwrap_or("").to_string();
             stats.bump(&format!("fault-x-outcome-{}", p.engine), &format!("{} -> {}", fk, class_of(&o.fin)));
+            if fk.starts_with("ctx-") {
+                stats.bump("ctx-fault-x-nominal-x-outcome", &format!("{} {} nominal {} -> {}", p.engine, fk, class_of(&p.nominal.fin), class_of(&o.fin)));
+            }
             stats.bump("outcome-class", &class_of(&o.fin));
             stats.bump("point-kind", &format!("{}:{}", p.engine, kind));
             stats.bump("fault-kind", &job.fault);
